@@ -111,3 +111,107 @@ def retry_finite(prop):
                 # C12.retry.finite: every public transfer method runs (transitively) under a finite retry budget
                 add(f'retry.{relpath.split("/")[-1]}.{m}.under_finite_budget', [], z3.BoolVal(ok))
     return Lemma(f'{prop}.retry', build, prop=prop)
+
+
+# ------------------------------------------------------------------ requires_auth: the retry region under contract
+def _wrapper_region(stmt):
+    return isinstance(stmt, ast.For)
+
+
+def reauth_setup(kind):
+    def setup(b):
+        from vf import sym, models
+        from vf.interp import Model, Raised, Exc, Obj
+        from vf.ops import CM
+        from specs import shared
+        RESULT = models.opaque_type('CallResult')
+
+        def locked(interp, st, args, kwargs):
+            yield st, sym.fresh(sym.BOOL, 'lock_busy')
+
+        def acquire(interp, st, args, kwargs):
+            r = sym.fresh(sym.BOOL, 'got_lock')
+            st.emit('lock_try', result=r)
+            yield st, r
+
+        def release(interp, st, args, kwargs):
+            st.emit('lock_release')
+            yield st, None
+
+        lock = models.lock_cm('auth_lock')
+        lock.attrs = {'locked': Model('locked', locked), 'acquire': Model('acquire', acquire), 'release': Model('release', release)}
+
+        def authenticate(interp, st, args, kwargs):
+            bad = st.copy()
+            bad.emit('authenticate_failed')
+            yield bad, Raised(Exc('OSError'))
+            st.emit('authenticate')
+            yield st, None
+
+        me = Obj('self', authenticate=Model('authenticate', authenticate))
+        me._attrs['_async_auth_lock' if kind == 'async' else '_auth_lock'] = lock
+        b.bind('self', me)
+        b.me = me
+        b.bind('a', ())
+        b.bind('ka', b.st.new_py('dict', {}))
+
+        def func(interp, st, args, kwargs):
+            ok_self = bool(args) and args[0] is me
+            for cls in ('AuthRequired', 'OSError'):
+                bad = st.copy()
+                bad.emit('call', outcome=cls, self_first=ok_self)
+                yield bad, Raised(Exc(cls))
+            r = sym.fresh(RESULT, 'result')
+            st.emit('call', outcome='ok', value=r, self_first=ok_self)
+            yield st, r
+
+        b.bind('func', Model('func', func))
+        b.bind('exceptions', shared.EXCEPTIONS)
+    return setup
+
+
+def reauth_post(prop, kind):
+    def post(res):
+        n_persist = n_ok = 0
+        for p in res.paths:
+            calls = p.events('call')
+            outcomes = [c.data['outcome'] for c in calls]
+            sig = f'{",".join(o[:4] for o in outcomes)}->{p.kind}' + (':' + p.value.cls if p.kind == 'raise' else '')
+            tag = f'{prop}.requires_auth[{kind}]'
+            res.oblige(p, f'{tag}.wrapped_method_called_with_self', z3.BoolVal(all(c.data['self_first'] for c in calls)))
+            if p.kind in ('return', 'normal'):
+                n_ok += 1
+                # the wrapper never reports success without a result of the wrapped call: it returns what the LAST call
+                # returned, and that call succeeded (falling off the end would turn a persistent AuthRequired into None)
+                good = (p.kind == 'return' and outcomes and outcomes[-1] == 'ok' and p.value is calls[-1].data['value']
+                        and p.st.events[-1] is calls[-1])
+                res.oblige(p, f'{tag}.success_only_with_the_result_of_a_successful_call[{sig}]', z3.BoolVal(bool(good)))
+            if outcomes and all(o == 'AuthRequired' for o in outcomes) and not p.events('authenticate_failed'):
+                n_persist += 1
+                # persistent AuthRequired: bounded number of attempts, at least one re-authentication, then the error surfaces
+                res.oblige(p, f'{tag}.persistent_auth_failure_surfaces_after_bounded_attempts[{sig}]', z3.BoolVal(
+                    p.kind == 'raise' and p.value.cls == 'AuthRequired' and 2 <= len(outcomes) <= 16))
+            if 'OSError' in outcomes:
+                res.oblige(p, f'{tag}.other_errors_propagate_at_once[{sig}]', z3.BoolVal(
+                    p.kind == 'raise' and p.value.cls == 'OSError' and outcomes.index('OSError') == len(outcomes) - 1))
+            # between two attempts the credentials were refreshed by this caller, or it waited for the one refreshing them
+            evs = p.st.events
+            idx = [i for i, e in enumerate(evs) if e.kind == 'call']
+            for x, y in zip(idx, idx[1:]):
+                between = [e.kind for e in evs[x + 1:y]]
+                res.oblige(p.pc_at(evs[y]), f'{tag}.reauthenticated_or_waited_between_attempts',
+                           z3.BoolVal('authenticate' in between or 'acquire' in between))
+            # a lock taken with acquire(blocking=False) is released on every path, also when authenticate() fails
+            tries = [e for e in p.events('lock_try')]
+            if tries:
+                got = z3.Or(*[e.data['result'].z for e in tries])
+                res.oblige(p, f'{tag}.try_lock_released[{sig}]', z3.Implies(got, z3.BoolVal(len(p.events('lock_release')) >= 1)))
+            res.oblige(p, f'{tag}.no_lock_held_at_exit[{sig}]', z3.BoolVal(not p.st.locks_held))
+        res.oblige([], f'{prop}.requires_auth[{kind}].paths_checked', z3.BoolVal(n_persist >= 1 and n_ok >= 2))
+    return post
+
+
+def requires_auth_units(prop):
+    from vf.unit import Unit
+    return [Unit(f'{prop}.requires_auth_{kind}', UTILS_PY, 'requires_auth.wrapper', reauth_setup(kind), reauth_post(prop, kind),
+                 nth=nth, stmt=_wrapper_region, prop=prop) for nth, kind in ((0, 'async'), (1, 'sync'))]
